@@ -66,8 +66,8 @@ def _tokens(prog, fn_key, e, depth=0, seen=frozenset()):
     out = set()
     e = deep(prog, fn_key, e)
     for x in subexprs(e):
-        if x[0] == "phi" and depth < 2 and fn_key in prog.fns:
-            # a value assembled on several paths (`let found = match it.find(..) { Some(..) => true, None => false }`): what its
+        if x[0] == "phi" and depth < 2 and fn_key in prog.fns and prog.fns[fn_key].body.locals[x[1]]["ty"] == "bool":
+            # a flag assembled on several paths (`let found = match it.find(..) { Some(..) => true, None => false }`): what its
             # definitions were computed from, and the branches that chose between them
             body_ = prog.fns[fn_key].body
             for d in body_.defs().get(x[1], []):
@@ -333,8 +333,11 @@ def write_tables(prog):
     by_fn = {}
     for (fk, what), bs in sites.items():
         by_fn.setdefault(fk, {}).setdefault(what, set()).update(bs)
-    fns = [k for k, f in prog.fns.items() if f.kind != "Closure" and not f.j.get("stub") and prog.ident(k) is not None]
+    fns = [k for k, f in prog.fns.items() if not f.j.get("stub") and prog.ident(k) is not None]
     must = {k: set() for k in fns}
+    # functions that run the closure they are handed exactly once, on every path (the runtime's scoping helpers)
+    RUNS_ITS_CLOSURE = ("rt::execution", "rt::branch", "rt::synchronize", "rt::scheduler::Scheduler::with_execution",
+                        "rt::scheduler::Scheduler::with_state")
 
     def solve(fk):
         body = prog.fns[fk].body
@@ -347,6 +350,11 @@ def write_tables(prog):
             k = prog.callee_key(c)
             if k in must and k != fk:
                 ev.setdefault(b, set()).update(must[k])
+            if k in RUNS_ITS_CLOSURE:
+                for a in t["args"]:
+                    ae = strip(body.expr_of_operand(a))
+                    if ae[0] == "agg" and isinstance(ae[1], str) and ae[1] in must and prog.fns[ae[1]].kind == "Closure":
+                        ev.setdefault(b, set()).update(must[ae[1]])
         order = body.rpo(False)
         preds = body.preds(False)
         IN = {b: None for b in order}
@@ -395,7 +403,7 @@ def write_tables(prog):
     nsites = {}
     for (fk, what), bs in sites.items():
         nsites.setdefault("%s=>%s" % (enclosing_fn(fk), what), []).extend((fk, b) for b in bs)
-    return ({k: sorted(v) for k, v in must.items() if v}, {k: sorted(v) for k, v in vocab.items()}, nsites)
+    return ({k: sorted(v) for k, v in must.items() if v and prog.fns[k].kind != "Closure"}, {k: sorted(v) for k, v in vocab.items()}, nsites)
 
 
 def _replaced_field(prog, tok):
